@@ -68,7 +68,13 @@ RULE = (
     "(forests of `ran >> run` connections with hand-made starting nodes); the file "
     "is loaded through Node.load into a freshly built Workflow, flags cleared, fault table cleared, run again; "
     "compared with a clean run of a fresh graph and with plain composition. Non-trivial = at the cut at least one "
-    "leaf had completed and at least one had not"
+    "leaf had completed and at least one had not. Kind idle: the same random trees x a history of 1-3 failure events "
+    "{child.run() | child.pull() by hand on any leaf or macro at any depth, raising leaf inside it or inside something "
+    "upstream of it | an operator on an output injecting a node that raises as it is created | a failing run of the "
+    "outermost graph | clean runs in between} x what is raised x recovery=None somewhere, plus a for-loop (depth 0-2) "
+    "assembling its body on a set with strict hints off inside a real run; after EVERY event the whole cwd tree is "
+    "scanned for recovery.*; where the root itself failed its file is restored and resumed. Non-trivial (idle) = some "
+    "node raised while the topmost running node had an idle parent"
 )
 TRUSTED = [
     "model Recovery.rstep/rrunNode/snapshot/resumeInit transcribe Node._before_run (cache test), Node._run_finally "
@@ -80,6 +86,9 @@ TRUSTED = [
     "which variant of the model applies (received reset at a fresh start / cache dropped while running / cache "
     "dropped on failure) is probed on the tree; the theorems cover every variant or give a witness",
     "CtlExecutor / schedule points call the original methods; only completions at root level are scheduled",
+    "kind idle: which nodes are running when a function raises (c08._running_at) is read off Node.run, "
+    "Node.run_data_tree (the PARENT runs the upstream nodes, then the pulled node runs alone) and the injection of "
+    "operator nodes (created with autorun, parent idle); the model takes that set as given",
 ]
 ASSUMPTIONS = [
     "wrapped functions are deterministic and importable; executor jobs of the resumed run complete exactly once",
@@ -1071,8 +1080,10 @@ def _run_loop(case):
     out1 = _attempt(wf.run)
     files = _recovery_scan()
     r = {"idle": True, "loop": depth, "events": [{"how": "loop", "outcome": out1, "files": files, "idle_parent": True}],
-         "reference": reference_, "resume": None}
-    if out1 == "failedchild" and "w/recovery.pckl" in files:
+         "loop_resume": None}
+    if out1 != "ok" and "w/recovery.pckl" in files:
+        res = {"done_before": [0], "ref": reference_, "ref_outcome": "ok" if reference_ is not None else ref_out}
+
         def resume():
             wf2 = Workflow("w", autoload=None)
             wf2.load(filename=wf2.as_path().joinpath("recovery"))
@@ -1085,10 +1096,12 @@ def _run_loop(case):
             for n in _walk_live(wf2):
                 n.failed = False
             nodes.CALL_LOG.clear()
-            r["resumed"] = {k: term_str(v) for k, v in dict(wf2.run()).items()}
+            res["labels"] = sorted(wf2.children)
+            res["out"] = {k: term_str(v) for k, v in dict(wf2.run()).items()}
 
-        r["resume"] = _attempt(resume)
-        r["calls2"] = [c[0] for c in nodes.CALL_LOG]
+        res["outcome"] = _attempt(resume)
+        res["calls"] = [c[0] for c in nodes.CALL_LOG]
+        r["loop_resume"] = res
     return {"obs": ["files " + " ".join(files)], "r": r,
             "stats": {"kind:idle": 1, "idle:loop-assembly": 1, f"idle:loop-depth-{depth}": 1}}
 
@@ -1104,18 +1117,19 @@ def _run_idle(case):
     nodes.reset()
     wf = _build(case)
     lvs, node, _comp = _index(wf, case)
-    for n in _walk_live(wf):
-        n.use_cache = False  # an earlier successful run must not stand in for the call that is to fail
     for g in case.get("norec", []):
         (wf if g == case["N"] else node[g]).recovery = None
     par = _owners(case)
     evs, obs = [], []
     stats = {"kind:idle": 1, "nested": int(len(lvs) > 1)}
+    resume = None
     try:
-        for ev in case["events"]:
+        for j, ev in enumerate(case["events"]):
             for n in _walk_live(wf):
                 n.failed = False
                 n.running = False
+                if j > 0:
+                    n.use_cache = False  # an earlier run must not stand in for the call that is to fail now
             nodes.FAIL.clear()
             how = ev["how"]
             if how == "clean":
@@ -1143,10 +1157,43 @@ def _run_idle(case):
             stats[f"idle:{how}"] = stats.get(f"idle:{how}", 0) + 1
             if idle_parent and out != "ok":
                 stats["idle:raised-with-idle-parent"] = 1
+            if (how == "pull" and case["N"] in running and out != "ok" and j == len(case["events"]) - 1
+                    and "w/recovery.pckl" in files and all(e["how"] != "root" for e in case["events"])):
+                # a pull of a child of the outermost graph failed upstream: the graph itself ran (and failed), the
+                # file is ITS recovery file -- restore it in a fresh graph, remove the cause, resume
+                done_before = sorted({c[0] for c in nodes.CALL_LOG} - {ev["fail"]}) if j == 0 else []
+                resume = _resume_root_file(case, done_before)
+                stats["idle:pull-through-root-resumed"] = 1
     finally:
         _restore_faults()
         nodes.FAIL.clear()
-    return {"obs": obs, "r": {"idle": True, "events": evs}, "stats": stats}
+    return {"obs": obs, "r": {"idle": True, "events": evs, "pull_resume": resume}, "stats": stats}
+
+
+def _resume_root_file(case, done_before):
+    from pyiron_workflow import Workflow
+
+    from . import nodes
+    from .execsim import term_str
+
+    _restore_faults()
+    nodes.reset()
+    res = {"done_before": done_before}
+
+    def go():
+        wf2 = Workflow("w", autoload=None)
+        wf2.load(filename=wf2.as_path().joinpath("recovery"))
+        for n in _walk_live(wf2):
+            n.failed = False
+        res["labels"] = sorted(wf2.children)
+        res["out"] = {k: term_str(v) for k, v in dict(wf2.run()).items()}
+
+    res["outcome"] = _attempt(go)
+    res["calls"] = [c[0] for c in nodes.CALL_LOG]
+    nodes.reset()
+    ref = _build(case)
+    res["ref_outcome"] = _attempt(lambda: res.__setitem__("ref", {k: term_str(v) for k, v in dict(ref.run()).items()}))
+    return res
 
 
 def _idle_model_input(case):
@@ -1181,31 +1228,37 @@ def _idle_oracle(case, r):
     fails = []
     norec_root = case["N"] in case.get("norec", []) if case.get("loop") is None else bool(case.get("norec"))
     root_failed = False
+
+    def add(clause, short, kind, detail, **kw):
+        fails.append({"clause": clause, "detail": detail, "signature": {"clause": short, "kind": kind, **kw}})
+
     for j, ev in enumerate(r["events"]):
+        where = f"event {j} ({ev['how']}, {ev['outcome'].split(':')[-1]}): files {ev['files']}"
         stray = [f for f in ev["files"] if os.path.dirname(f) != "w"]
         if stray:
-            fails.append({"clause": "recovery-file-below-the-outermost-graph", "event": j, "how": ev["how"],
-                          "idle_parent": ev["idle_parent"], "n_stray": len(stray)})
+            add("recovery-file-below-the-outermost-graph", "stray-file", "idle", where, how=ev["how"],
+                idle_parent=ev["idle_parent"])
         if ev["how"] in ("root", "loop") and ev["outcome"] != "ok":
             root_failed = True
         if ev["how"] == "pull" and ev["outcome"] != "ok" and not ev["idle_parent"]:
-            c_ev = case["events"][j]
-            if _owners(case)[c_ev["target"]][0] == case["N"]:
-                root_failed = True  # the outermost graph itself ran the upstream nodes, and failed
+            root_failed = True  # the outermost graph itself ran the upstream nodes, and failed
         at_root = [f for f in ev["files"] if os.path.dirname(f) == "w"]
         if root_failed and not norec_root and len(at_root) != 1:
-            fails.append({"clause": "file-not-exactly-at-root", "event": j, "how": ev["how"], "n_at_root": len(at_root)})
+            add("file-not-exactly-at-root", "files", "idle", where, how=ev["how"])
         if (not root_failed or norec_root) and at_root:
-            fails.append({"clause": "recovery-file-without-a-failed-run-of-the-root", "event": j, "how": ev["how"]})
-    if case.get("loop") is not None and r.get("resume") is not None:
-        if r["resume"] != "ok":
-            fails.append({"clause": "resumed-run-fails", "kind": "idle-loop", "outcome": r["resume"].split(":")[0]})
-        elif r.get("resumed") != r.get("reference"):
-            fails.append({"clause": "resumed-outputs-differ", "kind": "idle-loop"})
-        elif 0 in r.get("calls2", []):
-            fails.append({"clause": "completed-node-called-again", "kind": "idle-loop"})
+            add("recovery-file-without-a-failed-run-of-the-root", "files-unexpected", "idle", where, how=ev["how"])
+    for key, kind in (("pull_resume", "idle-pull"), ("loop_resume", "idle-loop")):
+        pr = r.get(key)
+        if pr is None or pr.get("ref_outcome") != "ok":
+            continue
+        if pr["outcome"] != "ok":
+            add("resumed-run-fails", "resume-fails", kind, pr["outcome"])
+        elif pr.get("out") != pr.get("ref"):
+            add("resumed-outputs-differ", "outputs", kind,
+                f"resumed {pr.get('out')} uninterrupted {pr.get('ref')} children {pr.get('labels')}")
+        elif set(pr["calls"]) & set(pr["done_before"]):
+            add("completed-node-called-again", "recall", kind, f"calls {pr['calls']} completed {pr['done_before']}")
     return fails
-
 
 
 # --------------------------------------------------------------------------- observations / model input
@@ -1956,6 +2009,9 @@ def corpus():
     # the child of a flat workflow is pulled and its own function raises (seeded/C08-9/demo.py, b)
     yield _flat(3, [[[], [], []], [[0], [], []], [[1], [], []]], kind="idle", norec=[],
                 events=[{"how": "pull", "target": 1, "fail": 1}])
+    # a pull THROUGH the outermost graph fails upstream: the file the graph writes must be the graph as it was made
+    yield _flat(4, [[[], [], []], [[0], [], []], [[1], [], []], [[0], [], []]], kind="idle", norec=[],
+                events=[{"how": "pull", "target": 2, "fail": 1}])
     # a loop, in a macro / two macros deep / directly in the workflow, is handed a set with type checking off: the
     # nodes picking the items out fail while the loop assembles its body, inside a run of the outermost graph
     for depth in (1, 2, 0):
